@@ -1,6 +1,304 @@
-//! C17 — not implemented yet.
-use mc_core::Ctx;
+//! C17 — the state root commits exactly to the current substates.
+//!
+//! Explicit-state exploration of single-update commit histories on the real `put_at_next_version`
+//! (over a `TypedInMemoryTreeStore` without pruning) and on `StateTreeUpdatingDatabase`. After every
+//! commit: root == independent sparse-Merkle commitment of the model map (refmerkle), empty state ==
+//! all-zero root, `list_substate_hashes_at_version` == {H(value)} of the model. Batch independence:
+//! the history reaching every transition is also replayed from scratch in every other batching
+//! (all 2^(n-1) compositions of its n updates, updates of one partition inside a batch composed the way
+//! `DatabaseUpdates` requires) and must end in the same root and listing.
+use crate::alphabet::*;
+use crate::refmerkle;
+use crate::treekeys;
+use mc_core::{bfs, BfsStats, Ctx, Level, Machine};
+use radix_common::prelude::Hash;
+use radix_substate_store_impls::memory_db::InMemorySubstateDatabase;
+use radix_substate_store_impls::state_tree::tree_store::{ReadableTreeStore, TypedInMemoryTreeStore};
+use radix_substate_store_impls::state_tree::{list_substate_hashes_at_version, put_at_next_version};
+use radix_substate_store_impls::state_tree_support::StateTreeUpdatingDatabase;
+use radix_substate_store_interface::interface::*;
+use serde_json::json;
+use std::collections::BTreeMap;
 
-pub fn run(_ctx: Ctx) -> ! {
-    mc_core::machinery_error("C17: not implemented")
+pub type HashListing = BTreeMap<PKey, BTreeMap<Sort, Hash>>;
+
+pub fn listing_of<S: ReadableTreeStore>(store: &S, version: u64) -> HashListing {
+    let mut out = HashListing::new();
+    if version == 0 {
+        return out; // no root exists before the first commit (documented: the caller passes None)
+    }
+    for (pk, m) in list_substate_hashes_at_version(store, version) {
+        let e = out.entry((pk.node_key, pk.partition_num)).or_default();
+        for (k, h) in m {
+            e.insert(k.0, h);
+        }
+    }
+    out
+}
+
+pub fn show_listing(l: &HashListing) -> String {
+    let v: Vec<String> = l
+        .iter()
+        .map(|((n, p), m)| format!("{}/{}:{{{}}}", mc_core::hex(n), p, m.iter().map(|(k, h)| format!("{}:{}", mc_core::hex(k), &mc_core::hex(&h.0)[..8])).collect::<Vec<_>>().join(",")))
+        .collect();
+    format!("[{}]", v.join(" "))
+}
+
+/// Outcome class of applying `a` to `before` (harness-side description of what the commit did).
+pub fn effect_class(before: &RefDb, after: &RefDb, a: &Atom) -> String {
+    let kind = match &a.pu {
+        PU::Delta(v) if v.iter().all(|(_, x)| x.is_some()) => "set",
+        PU::Delta(v) if v.iter().all(|(_, x)| x.is_none()) => "delete",
+        PU::Delta(_) => "set+delete",
+        PU::Reset(v) if v.is_empty() => "reset-to-empty",
+        PU::Reset(_) => "reset-to-values",
+    };
+    let pk = a.pkey();
+    let b = before.parts.get(&pk);
+    let n = after.parts.get(&pk);
+    let entity_before = before.parts.keys().any(|k| k.0 == a.node);
+    let entity_after = after.parts.keys().any(|k| k.0 == a.node);
+    let effect = if b == n {
+        "noop"
+    } else if after.parts.is_empty() {
+        "state-emptied"
+    } else if before.parts.is_empty() {
+        "first-substate"
+    } else if entity_before && !entity_after {
+        "entity-removed"
+    } else if !entity_before && entity_after {
+        "entity-created"
+    } else if b.is_some() && n.is_none() {
+        "partition-removed"
+    } else if b.is_none() && n.is_some() {
+        "partition-created"
+    } else {
+        let (bl, nl) = (b.map(|m| m.len()).unwrap_or(0), n.map(|m| m.len()).unwrap_or(0));
+        if nl > bl {
+            "partition-grew"
+        } else if nl < bl {
+            "partition-shrank"
+        } else {
+            "values-changed"
+        }
+    };
+    format!("{kind}:{effect}")
+}
+
+struct St {
+    hist: Vec<u16>,
+    tree: TypedInMemoryTreeStore,
+    version: u64,
+    root: Hash,
+    stdb: StateTreeUpdatingDatabase<InMemorySubstateDatabase>,
+    model: RefDb,
+}
+
+struct M17 {
+    atoms: Vec<Atom>,
+    updates: Vec<DatabaseUpdates>,
+    offset: usize,
+}
+
+fn put(tree: &TypedInMemoryTreeStore, version: u64, du: &DatabaseUpdates) -> Hash {
+    put_at_next_version(tree, Some(version).filter(|v| *v > 0), du)
+}
+
+impl M17 {
+    fn check_batchings(&self, st: &St) -> Result<u64, (String, String)> {
+        let n = st.hist.len();
+        if n < 2 {
+            return Ok(0);
+        }
+        let atoms: Vec<&Atom> = st.hist.iter().map(|i| &self.atoms[*i as usize]).collect();
+        let want_listing = refmerkle::substate_hashes(&st.model);
+        let mut done = 0;
+        // bit i of mask set = cut between update i and i+1; all ones = the single-update history itself
+        for mask in 0..((1u32 << (n - 1)) - 1) {
+            let tree = TypedInMemoryTreeStore::new();
+            let mut version = 0u64;
+            let mut root = refmerkle::ZERO;
+            let mut group: Vec<Atom> = vec![];
+            let mut shape = vec![];
+            for i in 0..n {
+                group.push(atoms[i].clone());
+                let cut = i + 1 == n || (mask >> i) & 1 == 1;
+                if cut {
+                    shape.push(group.len());
+                    let commit = merge_atoms(&group);
+                    root = put(&tree, version, &commit.to_database_updates());
+                    version += 1;
+                    group.clear();
+                }
+            }
+            done += 1;
+            if root != st.root {
+                return Err((
+                    "batching:root".into(),
+                    format!("batch sizes {:?} of the same updates give root {} but one-update-per-commit gives {}", shape, mc_core::hex(&root.0), mc_core::hex(&st.root.0)),
+                ));
+            }
+            let got = listing_of(&tree, version);
+            if got != want_listing {
+                return Err(("batching:listing".into(), format!("batch sizes {:?}: tree lists {} but the substates are {}", shape, show_listing(&got), show_listing(&want_listing))));
+            }
+        }
+        Ok(done)
+    }
+}
+
+static BATCHINGS: std::sync::atomic::AtomicU64 = std::sync::atomic::AtomicU64::new(0);
+
+impl Machine for M17 {
+    type Op = OpIx;
+    type St = St;
+
+    fn init(&self) -> St {
+        St {
+            hist: vec![],
+            tree: TypedInMemoryTreeStore::new(),
+            version: 0,
+            root: refmerkle::ZERO,
+            stdb: StateTreeUpdatingDatabase::new(InMemorySubstateDatabase::standard()),
+            model: RefDb::default(),
+        }
+    }
+
+    fn ops(&self, _st: &St, _depth: usize) -> Vec<OpIx> {
+        (0..self.atoms.len()).map(|i| OpIx((i + self.offset) as u16)).collect()
+    }
+
+    fn fork(&self, st: &St) -> Option<St> {
+        Some(St { hist: st.hist.clone(), tree: st.tree.clone(), version: st.version, root: st.root, stdb: st.stdb.clone(), model: st.model.clone() })
+    }
+
+    fn step(&self, st: &mut St, op: &OpIx) -> Result<String, (String, String)> {
+        let i = op.0 as usize - self.offset;
+        let atom = &self.atoms[i];
+        let du = &self.updates[i];
+        if st.version == 0 && st.stdb.get_current_root_hash() != refmerkle::ZERO {
+            return Err(("empty-root".into(), "a fresh StateTreeUpdatingDatabase does not report the all-zero root".into()));
+        }
+        st.hist.push(i as u16);
+        let before = st.model.clone();
+        st.model.apply_atom(atom);
+        st.root = put(&st.tree, st.version, du);
+        st.version += 1;
+        st.stdb.commit(du);
+
+        let want_root = refmerkle::state_root(&st.model);
+        if st.model.parts.is_empty() && st.root != refmerkle::ZERO {
+            return Err(("empty-root".into(), format!("the state is empty but the root is {}", mc_core::hex(&st.root.0))));
+        }
+        if st.root != want_root {
+            return Err((
+                "root-vs-reference".into(),
+                format!("put_at_next_version root {} but the commitment of the current substates {} is {}", mc_core::hex(&st.root.0), st.model.to_json(), mc_core::hex(&want_root.0)),
+            ));
+        }
+        if st.stdb.get_current_root_hash() != want_root || st.stdb.get_current_version() != st.version {
+            return Err((
+                "updating-database-root".into(),
+                format!("StateTreeUpdatingDatabase (version {}, root {}) but expected (version {}, root {})", st.stdb.get_current_version(), mc_core::hex(&st.stdb.get_current_root_hash().0), st.version, mc_core::hex(&want_root.0)),
+            ));
+        }
+        let want_listing = refmerkle::substate_hashes(&st.model);
+        let got = listing_of(&st.tree, st.version);
+        if got != want_listing {
+            return Err(("listing".into(), format!("list_substate_hashes_at_version gives {} but the substates are {}", show_listing(&got), show_listing(&want_listing))));
+        }
+        let mut got2 = HashListing::new();
+        for (pk, m) in st.stdb.list_substate_hashes() {
+            got2.insert((pk.node_key, pk.partition_num), m.into_iter().map(|(k, h)| (k.0, h)).collect());
+        }
+        if got2 != want_listing {
+            return Err(("updating-database-listing".into(), format!("StateTreeUpdatingDatabase lists {} but the substates are {}", show_listing(&got2), show_listing(&want_listing))));
+        }
+        if real_contents(&st.stdb) != st.model {
+            // not named by the statement (C15 territory); only recorded
+            return Ok("info:updating-database-substates-differ-from-model".into());
+        }
+        let n = self.check_batchings(st)?;
+        BATCHINGS.fetch_add(n, std::sync::atomic::Ordering::Relaxed);
+        Ok(effect_class(&before, &st.model, atom))
+    }
+
+    fn fingerprint(&self, st: &St) -> Vec<u8> {
+        // the model map plus the real root: two histories reaching the same map with different roots
+        // would be distinct states here and a violation in `step` (root is checked against the map)
+        let mut b = st.model.canonical_bytes();
+        b.extend_from_slice(&st.root.0);
+        mc_core::fp128(&b)
+    }
+}
+
+pub fn run(ctx: Ctx) -> ! {
+    if let Some(case) = ctx.read_replay_case() {
+        replay(ctx, case);
+    }
+    // (all 9 partitions?, every update combination?, depth)
+    let plan: Vec<(bool, bool, usize, &str)> = if ctx.quick() { vec![(false, false, 4, "core")] } else { vec![(false, false, 6, "core"), (true, true, 3, "full")] };
+    let mut table = vec![];
+    let mut offsets = vec![];
+    for (fp, fu, _, _) in &plan {
+        offsets.push(table.len());
+        table.extend(treekeys::atoms(*fp, *fu).into_iter().map(Commit::one));
+    }
+    install_table(table);
+    let mut total = BfsStats::default();
+    let mut exhaustive = true;
+    let mut searches = serde_json::Map::new();
+    for (pi, (fp, fu, depth, name)) in plan.iter().enumerate() {
+        let atoms = treekeys::atoms(*fp, *fu);
+        let updates = atoms.iter().map(|a| Commit::one(a.clone()).to_database_updates()).collect();
+        let m = M17 { atoms, updates, offset: offsets[pi] };
+        let s = bfs(&ctx, &m, name, *depth, 30_000_000, ctx.pick(45.0, 900.0));
+        if s.capped {
+            exhaustive = false;
+        }
+        searches.insert(format!("{name}:depth{depth}"), json!({"alphabet": m.atoms.len(), "states": s.states, "transitions": s.transitions, "depth_completed": s.depth_completed, "capped": s.capped, "per_depth_new_states": s.per_depth_states}));
+        total.add(&s);
+    }
+    let mut cov = total.coverage();
+    cov.insert("searches".into(), serde_json::Value::Object(searches));
+    cov.insert("alternative_batchings_replayed".into(), json!(BATCHINGS.load(std::sync::atomic::Ordering::Relaxed)));
+    let nontrivial = total.states;
+    ctx.finish(
+        Level::ModelChecking,
+        "a state is a distinct (substate map, real root) pair; a transition is one single-partition commit on the real tree (root, listing, StateTreeUpdatingDatabase compared with the independent commitment) plus every alternative batching of the history that reaches it; non-trivial = distinct substate maps reached",
+        nontrivial,
+        exhaustive,
+        cov,
+        &[
+            "blake2b-256 is shared between the reference commitment and the tree",
+            "keys respect the tree's documented precondition: equal-length keys per tier (4-byte entity keys, 2-byte sort keys)",
+            "dedup by substate map: the reachable part of the tree is determined by the map up to node versions",
+            "alternative batchings are replayed for the first history found to each transition (breadth-first representative), not for every history reaching the same map",
+        ],
+    )
+}
+
+fn replay(ctx: Ctx, case: serde_json::Value) -> ! {
+    let hist = history_from_case(&case);
+    install_table(hist.clone());
+    let atoms: Vec<Atom> = hist.iter().map(|c| c.0[0].clone()).collect();
+    let updates = atoms.iter().map(|a| Commit::one(a.clone()).to_database_updates()).collect();
+    let m = M17 { atoms, updates, offset: 0 };
+    let mut st = m.init();
+    for i in 0..hist.len() {
+        match mc_core::catch(|| m.step(&mut st, &OpIx(i as u16))) {
+            Ok(Ok(c)) => println!("step {i} {:?}: ok ({c}) root {}", hist[i], mc_core::hex(&st.root.0)),
+            Ok(Err((k, w))) => {
+                println!("step {i} {:?}: VIOLATION {k}: {w}", hist[i]);
+                ctx.violation(k, w, case.clone());
+                break;
+            }
+            Err(p) => {
+                println!("step {i} {:?}: PANIC {p}", hist[i]);
+                ctx.violation(format!("panic@{}", mc_core::last_panic_location()), p, case.clone());
+                break;
+            }
+        }
+    }
+    ctx.finish(Level::ModelChecking, "replay", 0, false, serde_json::Map::new(), &[])
 }
